@@ -166,6 +166,10 @@ type recExporter struct {
 	overlap   atomic.Int32
 	shutdowns atomic.Int32
 	latch     chan struct{} // behaviour 6 blocks until it is closed (cap 2s)
+	// exporter.Shutdown bookkeeping
+	shutdownOverlap atomic.Int32 // Shutdown entered while an ExportSpans call was running
+	exportDuringSD  atomic.Int32 // ExportSpans entered while Shutdown was running
+	shutdownDoneAt  atomic.Int64 // clock instant at which the first Shutdown finished
 }
 
 var errScripted = errors.New("scripted exporter failure")
@@ -216,7 +220,18 @@ func (e *recExporter) ExportSpans(ctx context.Context, spans []sdktrace.ReadOnly
 	return err
 }
 
+// Shutdown takes part in the exclusivity bookkeeping: "the exporter is never
+// invoked by two goroutines at the same time" covers Shutdown racing with an
+// export, and nothing may be exported through an exporter that has been shut
+// down. (The processor shuts the exporter down only after its worker has
+// finished draining, so neither can happen on a correct processor.)
 func (e *recExporter) Shutdown(context.Context) error {
+	if e.inflight.Add(1) > 1 {
+		e.shutdownOverlap.Add(1)
+	}
+	time.Sleep(200 * time.Microsecond) // widen the window
+	e.shutdownDoneAt.CompareAndSwap(0, e.clock.Tick())
+	e.inflight.Add(-1)
 	e.shutdowns.Add(1)
 	return nil
 }
@@ -485,6 +500,16 @@ func runOnce(c Case) ([]vk.Violation, map[string]bool) {
 	}
 	if n := exp.shutdowns.Load(); n > 1 {
 		bad("exporter_shutdown_twice", "exporter Shutdown called %d times", n)
+	}
+	if n := exp.shutdownOverlap.Load(); n > 0 {
+		bad("exporter_shutdown_during_export", "exporter Shutdown was entered %d time(s) while an ExportSpans call was still running on another goroutine", n)
+	}
+	if at := exp.shutdownDoneAt.Load(); at != 0 {
+		for ci, call := range ecalls {
+			if call.enter > at {
+				bad("export_after_exporter_shutdown", "ExportSpans call %d started (t=%d) after the exporter's own Shutdown had finished (t=%d)", ci, call.enter, at)
+			}
+		}
 	}
 
 	// nothing exported after a Shutdown that returned nil
